@@ -677,6 +677,8 @@ package tlog
 //@ func SplitStoredHashIndex
 //@   requires 0 <= index && index <= pow2(61)
 //@   ensures [C09] right_inverse: level >= 0 && n >= 0 && SHI(level, n) == index
+//@   # the subtree the position stands for lies inside the records committed so far (what keeps tile arithmetic in 64 bits)
+//@   ensures [C09] coords_bound: (n + 1) * pow2(level) <= index + 1
 //@   loop 0:
 //@     invariant n >= 0 && n <= index
 //@     invariant indexN == S0(n)
